@@ -57,12 +57,25 @@ def run_part(name, argv, tier, seed, env=None, timeout=7200, cwd=None):
     if env:
         e.update(env)
     t0 = time.time()
+    # harness output goes to files (a harness that floods its output must not exhaust the driver's memory)
+    errp = os.path.join(OUT, name + ".stderr")
     try:
-        p = subprocess.run(argv, cwd=cwd or ROOT, env=e, stdout=subprocess.PIPE, stderr=subprocess.PIPE, text=True, errors="replace", timeout=timeout)
+        with open(os.path.join(OUT, name + ".stdout"), "wb") as fo, open(errp, "wb") as fe:
+            p = subprocess.run(argv, cwd=cwd or ROOT, env=e, stdout=fo, stderr=fe, timeout=timeout)
     except subprocess.TimeoutExpired:
         raise MachineryError("part %s exceeded its wall cap of %ss" % (name, timeout))
+    def tail(path, n=3000):
+        try:
+            with open(path, "rb") as f:
+                f.seek(0, 2); size = f.tell(); f.seek(max(0, size - n))
+                return f.read().decode("utf-8", "replace")
+        except OSError:
+            return ""
     if p.returncode not in (0, 1) or not os.path.exists(out):
-        raise MachineryError("part %s: harness exited %s without a verdict\nstderr tail:\n%s" % (name, p.returncode, p.stderr[-3000:]))
+        raise MachineryError("part %s: harness exited %s without a verdict\nstderr tail:\n%s" % (name, p.returncode, tail(errp)))
+    for suffix in (".stdout", ".stderr"):
+        try: os.remove(os.path.join(OUT, name + suffix))
+        except OSError: pass
     with open(out) as f:
         rep = json.load(f)
     if rep.get("machinery_errors"):
